@@ -313,8 +313,36 @@ int main(int argc, char** argv) {
       }
       var fn_all = $(Function, accept_all);
       var view = base ? (!strcmp(sk, "slice") ? (var)slice(base) : (var)filter(base, fn_all)) : src;
+      var dupitems[40]; var dupobj[16] = {0}; struct Tuple duptup = { dupitems };
+      var duphdr = NULL;
+      if (!strcmp(sk, "duptuple")) {
+        /* a Tuple that holds the same OBJECT at every position of the same token (positions are what counts: get(t, i)) */
+        if (nv > 38) nv = 38;
+        for (int i = 0; i < nv; i++) { int t = (int)hc_int(4 + i) & 15; if (!dupobj[t]) dupobj[t] = vt_make(vt_k, t); dupitems[i] = dupobj[t]; }
+        dupitems[nv] = Terminal;
+        duphdr = malloc(sizeof(struct Header) + sizeof(struct Tuple));
+        view = header_init(duphdr, Tuple, AllocStack); memcpy(view, &duptup, sizeof duptup);
+        n_init = 0; for (int i = 0; i < nv; i++) init_vals[n_init++] = vt_token(vt_k, vt_nk, dupitems[i]);
+      } else {
       n_init = 0; { size_t lim = (size_t)nv + 2; foreach (x in view) { if (n_init >= lim) break; init_vals[n_init++] = vt_token(vt_k, vt_nk, x); } }
+      }
       if (isassign) HC_TRY(assign(c, view)); else HC_TRY(concat(c, view));
+      if (duphdr) {
+        /* (a List assigned from a Tuple becomes a List of Ref to the Tuple's items: checked here, position by position, from
+           both ends and by iteration; then the List gets its element type back from an empty Array and is logged as empty) */
+        if (!hc_exc[0]) {
+          long mism = 0; size_t k = 0;
+          if (len(c) != (size_t)nv) mism++;
+          for (int i = 0; i < nv && !mism; i++) { if (deref(get(c, $I(i))) != dupitems[i]) mism++; if (deref(get(c, $I(i - nv))) != dupitems[i]) mism++; }
+          foreach (x in c) { if (k >= (size_t)nv || deref(x) != dupitems[k]) { mism++; break; } k++; }
+          if (k != (size_t)nv) mism++;
+          var ea = new_raw(Array, et); assign(c, ea); del_raw(ea);
+          if (mism) hc_exc = "dup-mismatch";
+        }
+        n_init = 0;
+        for (int t = 0; t < 16; t++) if (dupobj[t]) vt_free(dupobj[t]);
+        free(duphdr);
+      }
       /* a Tuple keeps pointers into the operand: it stays alive until the next reset */
       if (n_keep + 2 < MAXKEEP) { if (src) keep_tmp[n_keep++] = src; if (base) keep_tmp[n_keep++] = base; }
       emit(objs, isassign ? "assignit" : "concatit", o, 0, 0, 0, 0, sk, hc_exc, 0);
@@ -477,6 +505,7 @@ int main(int argc, char** argv) {
         else if (!strcmp(w2, "resize")) HC_TRY(resize(c, (size_t)(L - 1)));
         else if (!strcmp(w2, "concat")) HC_TRY(concat(c, tuple(e1)));
         else if (!strcmp(w2, "assign")) HC_TRY(assign(c, tuple(e1)));
+        else if (!strcmp(w2, "assignit")) { var fb = new_raw(Array, vt_type(etk), e1, e1); var fn_all = $(Function, accept_all); var fv = filter(fb, fn_all); HC_TRY(assign(c, fv)); del_raw(fb); }   /* a source that can only be walked */
         else { fprintf(stderr, "unknown bad op %s\n", what); return 9; }
         header(c)->alloc = was;
 #else
